@@ -203,7 +203,7 @@ def c19(tier):
     for shape in (0, 1, 2, 4, 5, 6):   # 3 (number) and 7 (table{a:list}) give no verdict in 240 s: not claimed
         exist = [None] + ([4, 5] if tier != "quick" or shape in (0, 4) else [])
         for ex, which in [(e, w) for e in exist for w in range(4)]:
-            d = {"SHAPE": shape, "WHICH": which}
+            d = {"SHAPE": shape, "WHICH": which, "NORM_SINGLETONS": None}      # table key U+212B: normalised form differs from the spelling entered
             if ex is not None:
                 d.update({"INTO_EXISTING": None, "EXISTING_SHAPE": ex})
             qs.append(Q("C19_clone_S%d%s_w%d" % (shape, "" if ex is None else "_into%d" % ex, which), "h19_clone.c", defs=d, extra=ICU_NORM_CHEAP,
@@ -288,6 +288,11 @@ def c07(tier):
                         unwind=2 * (pos + 3 * ln) + 12, mode="safety", replay_libs=ICU_LIBS, native_extra=NATIVE_ICU, group="h07_buf",
                         bounds={"capacity": cap, "already written": pos, "write length": ln, "bytes": "symbolic"},
                         note="cif_buf_write growth: termination (unwinding assertion + native replay), capacity bookkeeping, content preservation"))
+    # the copy made on the way into a packet / list / table (cif_value_clone): deep equality incl. the spelling of table keys, independence
+    import copy
+    for q in c19(tier):
+        if "_clone_" in q.name:
+            q = copy.copy(q); q.name = "C07_via_" + q.name; qs.append(q)
     return qs
 
 
@@ -311,8 +316,9 @@ def c17(tier):
     inst += [(7, {"KEYSEL": k}) for k in (0, 1)]
     inst += [(13, {"SHAPE": s}) for s in (0, 4)]
     inst += [(15, {"INTO_SHAPE": s}) for s in ((0,) if tier == "quick" else (0, 1, 4))]
+    inst += [(16, {"SHAPE": s, "CIF_API_VERIF_SERIALIZATION_CAP": c}) for (s, c) in (((4, 4), (4, 12), (5, 12)) if tier == "quick" else ((0, 4), (4, 4), (4, 12), (4, 24), (5, 4), (5, 12), (6, 12), (6, 20)))]
     SYMBOLIC_OK = {1, 4, 8, 11, 12, 13, 14}          # targets whose symbolic-ordinal query finishes (measured)
-    NSITES = {2: 10, 3: 10, 5: 5, 6: 6, 7: 10, 9: 14, 10: 10, 15: 6}   # upper bounds on allocation sites (EXPECT asserts vf_count < MAXALLOC)
+    NSITES = {2: 10, 3: 10, 5: 5, 6: 6, 7: 10, 9: 14, 10: 10, 15: 6, 16: 8}   # upper bounds on allocation sites (EXPECT asserts vf_count < MAXALLOC)
     for (t, extra) in inst:
         fails = [None] if t in SYMBOLIC_OK else list(range(0, NSITES.get(t, 10) + 1))
         for fa in fails:
@@ -322,12 +328,12 @@ def c17(tier):
                 d["NSITES"] = NSITES.get(t, 10)
             qs.append(Q("C17_alloc_T%d%s%s" % (t, "".join("_%s%s" % (k[0], v) for k, v in extra.items()), "" if fa is None else "_f%02d" % fa), "h17_alloc.c", defs=d,
                         extra=ICU_NORM_CHEAP + ["stubs/alloc_fault.c"], libtus=["value.c", "map.c", "packet.c", "utils.c"], lib_defs=VF,
-                        unwind=(9 if t == 15 else (7 if extra.get("LSZ", 0) >= 4 else 5)), unwindset=[e.replace(":2", ":3") if extra.get("SHAPE") == 6 else e for e in VAL_REC] + ["memcmp.*:8", "memcpy.*:16", "strlen.*:8"], mode="safety",
+                        unwind=(9 if t == 15 else (7 if extra.get("LSZ", 0) >= 4 else 5)), unwindset=[e.replace(":2", ":3") if extra.get("SHAPE") == 6 else e for e in VAL_REC] + ["memcmp.*:8", "memcpy.*:16", "strlen.*:8"] + (["harness.*:98"] if t == 16 else []), mode="safety",
                         replay_libs=ICU_LIBS, native_extra=["stubs/icu_norm_cheap.c", "stubs/alloc_fault.c"], object_bits=10, group="h17_alloc",
                         bounds={"call": {1: "cif_value_create(CHAR)", 2: "cif_value_clone -> new", 3: "cif_value_clone -> existing", 4: "cif_value_copy_char",
                                          5: "cif_value_parse_numb", 6: "cif_value_insert_element_at", 7: "cif_value_set_item_by_key", 8: "cif_value_get_keys",
                                          9: "cif_packet_create", 10: "cif_packet_set_item", 11: "cif_value_get_text", 12: "cif_normalize_name",
-                                         13: "cif_value_init(CHAR)", 14: "cif_u_strdup", 15: "cif_value_clone(number with su) -> existing"}[t], "arguments": str(extra),
+                                         13: "cif_value_init(CHAR)", 14: "cif_u_strdup", 15: "cif_value_clone(number with su) -> existing", 16: "cif_value_serialize"}[t], "arguments": str(extra),
                                 "failing allocation": "symbolic ordinal 0 (none) .. 14" if fa is None else ("none" if fa == 0 else "allocation number %d" % fa)},
                         note="one allocation failure" + (" at a symbolic site" if fa is None else " (site enumerated)")))
     return qs
@@ -375,12 +381,12 @@ def c06(tier):
     qs = []
     scripts = {"full2": "{1,0},{1,1},{2,0},{2,1}", "sparse": "{1,0},{3,1}", "one": "{4,1}", "empty": "{0,0}"}
     seqs = ["nnnc", "nunc", "unc", "nrua", "nfnc", "nrrc", "nnna", "rnc", "nurnc", "nnunc"] if tier == "quick" else \
-           ["".join(x) + e for n in (1, 2, 3) for x in __import__("itertools").product("nufr", repeat=n) for e in "ca"] + ["nnnnc", "nnnna"]
+           ["".join(x) + e for n in (1, 2, 3) for x in __import__("itertools").product("nufr", repeat=n) if n < 3 or x[0] == "n" for e in "ca"] + ["nnnnc", "nnnna"]
     for sn, sc in scripts.items():
         for cs in (seqs if sn != "empty" else ["nc"]):
             if tier == "quick" and sn in ("one",) and cs not in ("nnnc", "nunc", "nrua"):
                 continue
-            for fc, fresh in [(f, fr) for f in ((0, 3, 6, 9, 12) if tier == "quick" else range(0, 25)) for fr in ((1,) if (tier == "quick" and f) else (0, 1))]:
+            for fc, fresh in [(f, fr) for f in ((0, 3, 6, 9, 12) if tier == "quick" else range(0, 25)) for fr in ((1,) if f else (0, 1))]:
               qs.append(Q("C06_itr_%s_%s_f%02d%s" % (sn, cs, fc, "" if fresh else "_reuse"), "h06_itr.c", defs={"ROWSCRIPT": sc, "CALLS": '"%s"' % cs, "FAILCALL": fc, "FRESH": fresh}, extra=SQL_EXTRA, libtus=SQL_TUS,
                         unwind=8, unwindset=VAL_REC + ["memcmp.*:8", "live_stmts.*:31", "teardown.*:31", "strcmp.*:80", "strncmp.*:20", "memset.*:700",
                                                        "sqlite3_prepare_v2.*:18", "sqlite3_clear_bindings.*:18", "sqlite3_finalize.*:18", "sqlite3_step.*:18"], mode="func",
@@ -471,12 +477,13 @@ def c11(tier):
                     replay=True, replay_libs=ICU_LIBS, native_extra=NATIVE_ICU, uthash="real",
                     bounds={"leading bytes": "0..12 symbolic bytes", "prefer_cif2": "-2..21", "force_default_encoding / default_encoding_name / default converter": "symbolic"},
                     note="cif_parse stage 1 (encoding + provisional version) vs decision table"))
-    for n, mode in [(k, "func") for k in ((0, 1, 2, 10, 11) if tier == "quick" else (0, 1, 2, 3, 9, 10, 11, 12))]:
-        qs.append(Q("C11_stage2_N%d_%s" % (n, mode), "h11_stage2.c", defs={"NIN": n, "CIF_API_VERIF_BUF_SIZE_INITIAL": 16, "CIF_API_VERIF_BUF_MIN_FILL": 1, "CIF_API_VERIF_LINE_LENGTH": 20}, replay=False,
+    for n, mode, bc in [(k, "func", b) for k in ((0, 1, 2, 10, 11) if tier == "quick" else (0, 1, 2, 3, 9, 10, 11, 12)) for b in ((0, 1) if 0 < k <= 3 else (None,))]:
+        qs.append(Q("C11_stage2_N%d%s_%s" % (n, "" if bc is None else "_bom%d" % bc, mode), "h11_stage2.c", defs=dict({"NIN": n, "BOMCASE": 2 if bc is None else bc, "CIF_API_VERIF_BUF_SIZE_INITIAL": 16, "CIF_API_VERIF_BUF_MIN_FILL": 1, "CIF_API_VERIF_LINE_LENGTH": 20}, **({"FIRST_ALL": None} if n > 3 else {})), replay=False,
                     extra=ICU, libtus=["parser.c"], remove=[("parser.c", "__CPROVER_file_local_parser_c_parse_cif"), ("parser.c", "__CPROVER_file_local_parser_c_get_first_char"),
                                                               ("parser.c", "__CPROVER_file_local_parser_c_get_more_chars")], unwind=n + 3,
                     unwindset=["cif_parse_internal.*:170", "u_strncmp.*:12", "memmove.*:34", "memcpy.*:34", "harness.*:14"], mode=mode, replay_libs=ICU_LIBS, native_extra=NATIVE_ICU,
-                    bounds={"input": "%d symbolic 16-bit units" % n, "provisional version": "-2, 0, 1, 2", "not_utf8": "symbolic", "error callback": "accepts all or rejects the 1st / 2nd error"},
+                    kf=["BOM_TEXT_POINTER"],
+                    bounds={"input": "%d symbolic 16-bit units%s" % (n, "" if bc is None else (", the first a byte-order mark" if bc else ", the first not a byte-order mark")), "provisional version": "-2, 0, 1, 2", "not_utf8": "symbolic", "error callback": "accepts all or rejects the 1st / 2nd error"},
                     note="cif_parse_internal stage 2 (magic comment, BOM, SET_V1, wrong-encoding) vs oracle; grammar replaced by a recorder"))
     return qs
 
@@ -652,6 +659,8 @@ def c03(tier):
     # the same units under CBMC's memory-safety / UB checks (arbitrary code units incl. controls and surrogates, callback
     # accepting or rejecting) + the functional contract of the result code and callback arguments + the fill step of C08
     qs = scan_queries(tier, mode="safety") + [q for q in tok_queries(tier) if "_p1_" in q.name][:1] + [q for q in c08(tier) if q.mode == "safety"]
+    # the start-up of cif_parse_internal: every error callback there gets line >= 1 and a text that is NULL or readable
+    qs += [q for q in c11(tier) if "_stage2_" in q.name and "_bom" in q.name]
     for q in qs:
         q.name = "C03_" + q.name
     return qs
@@ -664,18 +673,60 @@ META["C01"] = {"files": ["parser.c"], "functions": ["next_token", "scan_ws", "sc
 
 
 # ------------------------------------------------------------------------------------------ C02 / C13
+WFN_NAMES = {1: "write_unquoted", 2: "write_quoted", 3: "write_triple_quoted", 4: "write_text"}
+
+
+def gen_write_ctx(wd):
+    """write_context_t, extracted from the current ciffile.c (the dispatch harness links ciffile.c as a separate TU)."""
+    src = open(os.path.join(REPO, "src", "ciffile.c")).read()
+    m = re.search(r"typedef struct \{[^}]*\} write_context_t;", src)
+    open(os.path.join(wd, "write_context_gen.h"), "w").write("/* generated from /repo/src/ciffile.c */\n" + (m.group(0) if m else "#error write_context_t not found") + "\n")
+
+
+WRITER_SEAMS = [("ciffile.c", "__CPROVER_file_local_ciffile_c_" + f) for f in ("write_unquoted", "write_quoted", "write_triple_quoted", "write_text")]
+
+
 def write_queries(tier, version, prefix):
     qs = []
     WL = 20
-    ks = (1, 2, 3) if tier == "quick" else (1, 2, 3, 4, 5)
-    for k in ks:
-        qs.append(Q("%s_write_char_K%d" % (prefix, k), "h02_write.c", defs={"KLEN": k, "WVERSION": version, "CIF_API_VERIF_LINE_LENGTH": WL, "SINK_MAX": 96},
-                    extra=["stubs/icu_str.c", "stubs/ustdio_sink.c"], libtus=["utils.c", "value.c", "map.c", "packet.c"], unwind=max(3 * k + 12, 30),
-                    unwindset=VAL_REC + ["u_fprintf.*:100", "ref_kw.*:9", "cif_validate_cif11_characters.*:110", "strlen.*:12"], mode="func", replay=False,
-                    uthash="model", mem_gb=8, timeout=600 if tier == "quick" else 2400,
-                    bounds={"value text": "%d code units over the CIF %s value characters (no CR), contents symbolic" % (k, "2.0" if version == 2 else "1.1"),
-                            "quoted flag": "symbolic", "start column": "0..%d symbolic" % WL, "CIF_LINE_LENGTH": WL},
-                    note="write_item/write_char/... -> in-memory sink -> reference tokenizer + text-field decoder"))
+    inst = []
+    for wfn in ((1, 2, 3, 4) if version == 2 else (1, 2, 4)):
+        for k in ((2, 3) if tier == "quick" else (1, 2, 3, 4, 5)):
+            if wfn == 3 and k < 2:
+                continue
+            if wfn == 4 and k > (2 if tier == "quick" else 4):
+                continue
+            inst.append((wfn, k, 0))
+    # a line longer than the limit (folding is forced): K symbolic units, 19 concrete fillers, one symbolic unit
+    # a line longer than the limit (folding is forced): K symbolic units, then concrete fillers, then `tail` symbolic units
+    inst = [(w, k, f, 0) for (w, k, f) in inst] + ([] if tier == "quick" else [(4, 1, 14, 0), (4, 1, 14, 1)])
+    for (wfn, k, fill, tail) in inst:
+        WL = 15 if fill else 20            # the smallest limit the folding code accepts (target length LL-8 > window 6) keeps the forced-folding instances small
+        tmo = 600 if tier == "quick" else 3600
+        n = k + fill + tail
+        sm = 2 * n + 28 if fill else 4 * n + 20
+        segs = 5 if fill else 2            # folded segments per logical line: lines shorter than the limit are not split
+        qs.append(Q("%s_%s_K%d%s" % (prefix, WFN_NAMES[wfn], k, "_F%d_T%d" % (fill, tail) if fill else ""), "h02_writer.c",
+                    defs={"KLEN": k, "FILL": fill, "TAIL": tail, "WFN": wfn, "WVERSION": version, "CIF_API_VERIF_LINE_LENGTH": WL, "SINK_MAX": sm},
+                    extra=["stubs/icu_str.c", "stubs/ustdio_sink.c"], libtus=["utils.c", "value.c", "map.c", "packet.c"], unwind=n + 4,
+                    unwindset=VAL_REC + ["u_fprintf.*:%d" % (n + 12), "ref_kw.*:9", "strlen.*:12", "~ciffile.c~while (*tok != 0):%d" % segs,
+                                         "~ciffile.c~for (tok = text, next_tok = tok; tok != NULL; tok = next_tok):%d" % (min(n, k + tail + 1) + 2)]
+                    + ["%s.*:%d" % (f, sm + 2) for f in ("harness", "ref_decode_text", "ref_scan_text", "ref_scan_delim", "ref_scan_ws", "ref_scan_unquoted")],
+                    mode="func", replay_libs=ICU_LIBS, native_extra=["stubs/ustdio_sink.c"], uthash="model", mem_gb=10, timeout=tmo,
+                    kf=["TRIPLE_QUOTED_COLUMN", "TEXT_TRAILING_NEWLINE"],
+                    bounds={"writer": WFN_NAMES[wfn], "value text": "%d symbolic code units over the CIF %s value characters (no CR)%s" % (k + tail, "2.0" if version == 2 else "1.1", ", then %d concrete 'a'%s" % (fill, ", then %d symbolic" % tail if tail else "") if fill else ""),
+                            "start column": "0..%d symbolic" % WL, "CIF_LINE_LENGTH": WL},
+                    note="presentation writer (arguments assumed to meet oracles/writer_contract.h) -> in-memory sink -> reference scanner (+ text-field decoder)"))
+    for (k, fill) in (((1, 0), (2, 0), (3, 0), (4, 0), (1, 14)) if tier == "quick" else ((1, 0), (2, 0), (3, 0), (4, 0), (5, 0), (6, 0), (1, 14), (2, 14), (2, 21))):
+        WL = 15 if fill else 20
+        n = k + fill + (1 if fill else 0)
+        qs.append(Q("%s_dispatch_K%d%s" % (prefix, k, "_F%d" % fill if fill else ""), "h02_dispatch.c", defs={"KLEN": k, "FILL": fill, "WVERSION": version, "CIF_API_VERIF_LINE_LENGTH": WL},
+                    extra=["stubs/icu_str.c"], libtus=["ciffile.c", "utils.c", "value.c", "map.c", "packet.c"], remove=WRITER_SEAMS, gen=gen_write_ctx, unwind=n + 3,
+                    unwindset=VAL_REC + ["ref_kw.*:9", "cif_validate_cif11_characters.0:100"], object_bits=9,
+                    mode="func", replay_libs=ICU_LIBS, uthash="model", mem_gb=8, timeout=600 if tier == "quick" else 3000,
+                    bounds={"entry": "write_char", "value text": "%d symbolic code units%s" % (k + (1 if fill else 0), ", with %d concrete 'a' between the last two" % fill if fill else ""),
+                            "quoted flag / allow_text / start column": "symbolic", "CIF_LINE_LENGTH": WL},
+                    note="write_char -> cif_analyze_string -> choice of writer; writers are stubs asserting oracles/writer_contract.h"))
     return qs
 
 
@@ -687,12 +738,17 @@ def c13(tier):
     return write_queries(tier, 1, "C13")
 
 
-META["C02"] = {"files": ["ciffile.c", "utils.c"], "functions": ["write_item", "write_char", "write_unquoted", "write_quoted", "write_triple_quoted", "write_text", "fold_line",
-                                                              "write_literal", "write_uliteral", "write_newline", "cif_analyze_string", "cif_validate_cif11_characters"],
-               "stubs": ["stubs/ustdio_sink.c (u_fprintf / u_fputc in-memory model for the format strings of ciffile.c)", "read-back = reference tokenizer (C01) + reference text-field decoder"],
-               "assumptions": ["CIF_LINE_LENGTH = 20 via hook", "strings of concrete length <= 3 (thorough 5) units, contents symbolic"],
-               "outside": ["UTF-8 encoding of the output (ICU)", "the walk that feeds the writer (C14) and the storage below it", "lists / tables / numbers / container and loop headers unless listed",
-                           "strings long enough to need folding at the real limit"]}
+META["C02"] = {"files": ["ciffile.c", "utils.c"], "functions": ["write_char", "write_unquoted", "write_quoted", "write_triple_quoted", "write_text", "fold_line",
+                                                              "write_literal", "write_uliteral", "write_newline", "cif_analyze_string", "cif_is_reserved_string", "cif_value_get_text", "cif_validate_cif11_characters"],
+               "stubs": ["stubs/ustdio_sink.c (u_fprintf / u_fputc in-memory model for exactly the conversions ciffile.c uses; any other conversion is an assertion failure)",
+                         "stubs/icu_str.c (loop versions of the ICU string functions)",
+                         "dispatch queries: the four presentation writers are stubs that assert oracles/writer_contract.h",
+                         "read-back = reference scanners of oracles/ref_tokenizer.h (each shown equivalent to the real scan function by the C01 unit queries) + reference text-field decoder oracles/ref_textfield.h"],
+               "assumptions": ["CIF_LINE_LENGTH = 20 (15 in the forced-folding instances) via the CIF_API_VERIF_LINE_LENGTH hook", "value text of concrete length, contents symbolic; no CR; CIF 2.0 characters restricted to U+09, U+0A, U+20-7E, U+A0-D7FF (no surrogate pairs)",
+                               "writer queries assume the writer contract; the dispatch queries prove write_char establishes it"],
+               "outside": ["UTF-8 encoding of the output and the version comment (ICU, write_cif_start)", "the walk that feeds the writer (C14) and the storage below it", "lists / tables / numbers / container and loop headers / data names (write_list, write_table, write_numb, write_container_start, write_loop_start)",
+                           "values longer than the stated lengths; folding at the real 2048 limit is represented by the shrunk limit", "the real decode_text of the parser (the reference decoder stands for it)",
+                           "runs of semicolons as long as a line"]}
 META["C13"] = META["C02"]
 
 REG = {"C01": c01, "C02": c02, "C13": c13, "C03": c03, "C12": c12, "C15": c15, "C04": c04, "C11": c11, "C16": c16, "C05": c05, "C06": c06, "C17": c17, "C20": c20, "C10": c10, "C18": c18, "C09": c09, "C08": c08, "C14": c14, "C19": c19, "C07": c07}
@@ -844,6 +900,23 @@ MANI["C03"] = {
     "note": "per-unit: termination and totality of a whole parse follow from the units only by the composition argument; byte decoding "
             "/ malformed UTF-8 (ICU), parse options plumbing beyond C11, and the consistency of the target CIF afterwards beyond C05 are outside"}
 
+MANI["C02"] = {
+    "text": "Compositional bounded model checking of how a character value is written: (a) the real write_char + cif_analyze_string + "
+            "cif_value_get_text with the four presentation writers replaced by stubs that assert the writer contract "
+            "(oracles/writer_contract.h) for ALL value texts of the stated lengths, quoted flag, allow_text and start column; (b) each real "
+            "writer (write_unquoted, write_quoted, write_triple_quoted, write_text + fold_line, with write_literal / write_uliteral / "
+            "write_newline) under that contract, its output captured by an in-memory u_fprintf model and read back in the same query by "
+            "the reference scanner + text-field decoder: one token, no error, same text, no line over the limit, column bookkeeping exact.",
+    "note": "character values only (the statement's lists, tables, numbers, headers, UTF-8 encoding and the walk are outside; see evidence.outside); "
+            "lengths <= 3 symbolic units quick / 6 thorough plus forced-folding instances with concrete filler at a line limit shrunk to 15 by "
+            "hook; the read-back is against reference scanners proved equivalent to the real ones in C01 and a reference decoder of the "
+            "folding / prefix protocol, not the real parser end-to-end"}
+MANI["C13"] = {
+    "text": "Same compositional queries as C02 in CIF 1.1 output mode (ctx.version = 1): write_char refuses with CIF_DISALLOWED_CHAR exactly "
+            "when a code unit is outside the CIF 1.1 set and otherwise either refuses with CIF_DISALLOWED_VALUE or calls exactly one writer "
+            "with arguments meeting the contract (never the triple-quoted writer); each writer's output under the contract reads back, with "
+            "the CIF 1.1 reference scanner, as the same text within the line limit.",
+    "note": "character values only; list / table refusal, names and codes are outside; CR inside values is outside (no CR assumed); bounds as C02"}
 MANI["C15"] = {
     "text": "Bounded model checking of the real productions parse_container / parse_item / parse_loop / parse_loop_header / "
             "parse_loop_packets over enumerated token scripts (items, loops with 1-2 columns, a save frame) with a contract stub of the "
